@@ -32,23 +32,31 @@ CivilFromDays(z0) ==
 
 \* ---- instants [d, s, u] --------------------------------------------------------
 Inst(d, s, u) == [d |-> d, s |-> s, u |-> u]
+\* @type: ({d: Int, s: Int, u: Int}, {d: Int, s: Int, u: Int}) => Bool;
 InstLe(a, b) == \/ a.d < b.d
                 \/ a.d = b.d /\ a.s < b.s
                 \/ a.d = b.d /\ a.s = b.s /\ a.u <= b.u
+\* @type: ({d: Int, s: Int, u: Int}, {d: Int, s: Int, u: Int}) => Bool;
 InstLt(a, b) == InstLe(a, b) /\ a # b
+\* @type: ({d: Int, s: Int, u: Int}) => {d: Int, s: Int, u: Int};
 FloorSec(a) == [a EXCEPT !.u = 0]
 \* a minus k whole seconds (k >= 0 or < 0), normalised
+\* @type: ({d: Int, s: Int, u: Int}, Int) => {d: Int, s: Int, u: Int};
 AddSec(a, k) ==
     LET t == a.s + k
         dd == t \div 86400
     IN  [d |-> a.d + dd, s |-> t - dd * 86400, u |-> a.u]
 \* difference b - a as a duration [s, u]; requires |b - a| < ~68 years
+\* @type: ({d: Int, s: Int, u: Int}, {d: Int, s: Int, u: Int}) => {s: Int, u: Int};
 Diff(b, a) ==
     LET secs == (b.d - a.d) * 86400 + (b.s - a.s)
         us   == b.u - a.u
     IN  IF us < 0 THEN [s |-> secs - 1, u |-> us + 1000000] ELSE [s |-> secs, u |-> us]
+\* @type: ({s: Int, u: Int}, {s: Int, u: Int}) => Bool;
 DurLe(x, y) == x.s < y.s \/ (x.s = y.s /\ x.u <= y.u)
+\* @type: ({s: Int, u: Int}, {s: Int, u: Int}) => Bool;
 DurLt(x, y) == x.s < y.s \/ (x.s = y.s /\ x.u < y.u)
 Dur(s, u) == [s |-> s, u |-> u]
+\* @type: ({s: Int, u: Int}) => Bool;
 DurNonNeg(x) == x.s >= 0
 =============================================================================
